@@ -104,7 +104,13 @@ func overlaps(x, y []span) int {
 
 func c12Pair(c *core.Ctx, mode mon.Mode, a, b, iters int, idleTimers *int64) int {
 	sink := &evSink{}
-	rig := mon.NewRig(mon.RigOpts{Mode: mode, Queue: 2, QuietTail: true, NoHooks: true,
+	var wrap *[2]int
+	if (a+b)%3 == 1 {
+		// on the library's own buffering transport wrapper (what tcp.Options{ReadBufferSize, WriteBufferSize} selects)
+		wv := [][2]int{{64, 64}, {0, 64}, {64, 0}}[(a*7+b)%3]
+		wrap = &wv
+	}
+	rig := mon.NewRig(mon.RigOpts{Mode: mode, Queue: 2, QuietTail: true, NoHooks: true, Wrap: wrap,
 		Handlers: []netty.Handler{netty.ReadIdleHandler(time.Second), netty.WriteIdleHandler(time.Second), sink}})
 	defer rig.Dispose()
 	var wg sync.WaitGroup
@@ -371,6 +377,46 @@ func c12SenderFailure(c *core.Ctx, r int) {
 	c.Count("sender_failure_rounds", 1)
 }
 
+// c12CloseBuffered: Close racing writers on a synchronous channel over the library's buffering wrapper.
+func c12CloseBuffered(c *core.Ctx, r int) {
+	wv := [][2]int{{64, 64}, {0, 64}, {4096, 4096}}[r%3]
+	rig := mon.NewRig(mon.RigOpts{Mode: mon.Mode(r % 2), Queue: 4, QuietTail: true, NoHooks: true, Wrap: &wv})
+	defer rig.Dispose()
+	var wg sync.WaitGroup
+	start := make(chan struct{})
+	for g := 0; g < 3; g++ {
+		wg.Add(1)
+		go func(g int) {
+			defer wg.Done()
+			defer func() { recover() }()
+			buf := mon.Payload(g, 0, 40)
+			<-start
+			for i := 0; i < 400; i++ {
+				if g == 0 {
+					rig.Ch.Write1(buf)
+				} else {
+					rig.Ch.Writev([][]byte{buf[:10], buf[10:]})
+				}
+				if !rig.Ch.IsActive() && i%8 == 0 {
+					return
+				}
+			}
+		}(g)
+	}
+	wg.Add(1)
+	go func() {
+		defer wg.Done()
+		<-start
+		for i := 0; i < 20+r%60; i++ {
+			rig.Ch.IsActive()
+		}
+		rig.Ch.Close(errSentinel)
+	}()
+	close(start)
+	wg.Wait()
+	c.Count("close_vs_write_on_buffered_wrapper_rounds", 1)
+}
+
 func c12Pools(c *core.Ctx, iters int) {
 	var wg sync.WaitGroup
 	for g := 0; g < 16; g++ {
@@ -454,6 +500,12 @@ func runC12(c *core.Ctx) {
 		if c.Case(fmt.Sprintf("sender-failure/r%d", r)) {
 			c12SenderFailure(c, r+c.Shard*1000)
 			c.Sig("sender-failure", r%6)
+		}
+	}
+	for r := 0; r < c.Scale(40, 400); r++ {
+		if c.Case(fmt.Sprintf("close-buffered/r%d", r)) {
+			c12CloseBuffered(c, r+c.Shard*977)
+			c.Sig("close-buffered", r%6)
 		}
 	}
 	if c.Case("pools") {
